@@ -214,4 +214,229 @@ theorem exec_simple_safe {b : Base} {s : St} {top : Act} {rest : List Act} (hg :
     rw [this]
     exact hg.lz
 
+/-! ## Small facts about `G` -/
+
+theorem G.same {s s' : St} (h : G s) (h1 : s'.data = s.data) (h2 : s'.linear = s.linear) (h3 : s'.addr = s.addr)
+    (h4 : s'.suspended = s.suspended) (h5 : s'.lazies = s.lazies) : G s' :=
+  ⟨⟨by rw [h1]; exact h.good.data, by rw [h2]; exact h.good.linear, by rw [h3]; exact h.good.addr,
+    by rw [h4]; exact h.good.susp, by rw [h5]; exact h.good.lazies⟩, by rw [h2]; exact h.lin, by rw [h5]; exact h.lz⟩
+
+theorem G.setData {s : St} (h : G s) (d : List (Option Val)) (hd : VMSafe.allSome d) : G { s with data := d } :=
+  ⟨⟨hd, h.good.linear, h.good.addr, h.good.susp, h.good.lazies⟩, h.lin, h.lz⟩
+
+theorem G.push {s : St} (h : G s) (v : Val) : G { s with data := some v :: s.data } :=
+  h.setData _ (VMSafe.allSome_cons h.good.data)
+
+theorem res_err {α} {s' : St} : (Except.error Fault.err : Except Fault α) ≠ .error .panic ∧
+    (∀ a, (Except.error Fault.err : Except Fault α) = .ok a → G s') := ⟨(by intro h; cases h), fun a ha => (by cases ha)⟩
+theorem res_timeout {α} {s' : St} : (Except.error Fault.timeout : Except Fault α) ≠ .error .panic ∧
+    (∀ a, (Except.error Fault.timeout : Except Fault α) = .ok a → G s') := ⟨(by intro h; cases h), fun a ha => (by cases ha)⟩
+theorem res_ok {α} {s' : St} (a : α) (h : G s') : (Except.ok a : Except Fault α) ≠ .error .panic ∧
+    (∀ a', (Except.ok a : Except Fault α) = .ok a' → G s') := ⟨(by intro h; cases h), fun _ _ => h⟩
+
+theorem Safe.bind {α β} {m : M α} {k : α → M β} {s : St} (hm : Safe m s)
+    (hk : ∀ a s1, m.run s = (.ok a, s1) → G s1 → Safe (k a) s1) : Safe (m >>= k) s := by
+  intro r s' h
+  rw [run_bind] at h
+  rcases hr : m.run s with ⟨r1, s1⟩
+  rw [hr] at h
+  obtain ⟨hn, hg⟩ := hm r1 s1 hr
+  cases r1 with
+  | ok a => exact hk a s1 hr (hg a rfl) r s' h
+  | error e =>
+    cases h
+    cases e with
+    | err => exact res_err
+    | panic => exact absurd rfl hn
+    | timeout => exact res_timeout
+
+theorem Safe.pure {α} (a : α) {s : St} (h : G s) : Safe (pure a : M α) s := by
+  intro r s' hr; rw [run_pure] at hr; cases hr; exact res_ok a h
+
+theorem Safe.err {α} (s : St) : Safe (VM.err : M α) s := by
+  intro r s' hr; rw [Sim.run_err] at hr; cases hr; exact res_err
+
+theorem callFunction_frame (f k : Nat) (s s' : St) (r : Except Fault Unit) (h : (callFunction f k).run s = (r, s')) :
+    s'.linear = s.linear ∧ s'.lazies = s.lazies := by
+  unfold callFunction at h
+  by_cases h0 : s.data.length < k
+  · vmsimp_at h [h0]; cases h; exact ⟨rfl, rfl⟩
+  · by_cases h00 : (s.data.take k).any Option.isNone = true
+    · vmsimp_at h [h0, h00]; cases h; exact ⟨rfl, rfl⟩
+    · cases hv : (fnOf s f).varargs with
+      | false =>
+        by_cases hk : k ≠ (fnOf s f).nargs
+        · vmsimp_at h [h0, h00, hv, hk]; cases h; exact ⟨rfl, rfl⟩
+        · vmsimp_at h [h0, h00, hv, hk]; cases h; exact ⟨rfl, rfl⟩
+      | true =>
+        rw [run_bind, run_get] at h
+        dsimp only at h
+        simp only [h0, if_false, h00, Bool.false_eq_true, hv, if_true, run_bind, run_pure] at h
+        have h1 := wrangle_frame (fnOf s f).nargs k s
+        have h2 := lz_wrangle (fnOf s f).nargs k s
+        rcases hwo : (wrangleOptargs (fnOf s f).nargs k).run s with ⟨r1, s1⟩
+        rw [hwo] at h h1 h2
+        cases r1 with
+        | ok u => simp only [run_modify] at h; cases h; exact ⟨h1.1, h2⟩
+        | error e => cases h; exact ⟨h1.1, h2⟩
+
+theorem callFunction_safe' (f k : Nat) (s : St) (hg : G s) : Safe (callFunction f k) s := by
+  intro r s' hr
+  obtain ⟨hgood, hpan⟩ := VMSafe.callFunction_safe f k s hg.good
+  obtain ⟨hl, hz⟩ := callFunction_frame f k s s' r hr
+  rw [hr] at hgood hpan
+  have hne : s'.linear ≠ [] := by rw [hl]; exact hg.lin
+  exact ⟨fun hp => hne (hpan (by rw [hp])), fun a _ => ⟨hgood, hne, by rw [hz]; exact hg.lz⟩⟩
+
+theorem runTail_safe (s : St) (hg : G s) : Safe runTail s := by
+  intro r s' hr
+  unfold runTail at hr
+  simp only [run_bind, run_get] at hr
+  rcases hd : s.data with _ | ⟨c, rest⟩
+  · simp only [hd, List.isEmpty_nil, if_true, run_bind, run_pushData, run_popData] at hr
+    cases hr
+    exact res_ok _ (hg.same (by rw [hd]) rfl rfl rfl rfl)
+  · cases c with
+    | none => exact absurd rfl (hg.good.data none (by rw [hd]; exact List.mem_cons_self))
+    | some w =>
+      simp only [hd, List.isEmpty_cons, Bool.false_eq_true, if_false, run_pure, run_popData] at hr
+      cases hr
+      refine res_ok _ (hg.setData rest ?_)
+      have := hg.good.data; rw [hd] at this; exact VMSafe.allSome_tail this
+
+/-- the specifications "no host panic, `G` on a normal return" of the mutual block, at one fuel -/
+structure SSpec (n : Nat) : Prop where
+  exec : ∀ (b : Base) (s : St) (top : Act) (rest : List Act) (i : Instr), G s → WF s → Running b s top rest → b.linear ≠ [] →
+    (fnOf s s.curfunc).code[s.pc.toNat]? = some i → Safe (exec n i) s
+  resolved : ∀ (s : St) (f : Val) (args : List Expr), G s → WF s → vok s.fns.length f = true → okLs args = true →
+    Safe (callResolved n f args) s
+  loop : ∀ (b : Base) (st : CtlState) (s : St), G s → WF s → Live b s → b.linear ≠ [] → b.pc = -2 → b.main = false →
+    Safe (runLoop n st) s
+  run : ∀ (b : Base) (s : St) (top : Act), G s → WF s → Running b s top [] → b.linear ≠ [] → b.pc = -2 → b.main = false →
+    Safe (run n) s
+  nested : ∀ (f : Nat) (st : CtlState) (s : St), G s → WF s → 2 ≤ f → f < s.fns.length →
+    (fnOf s f).params.length = 0 → s.pc = -2 → ∀ r s', (nested n f st).run s = (r, s') →
+    r ≠ .error .panic ∧ (∀ v, r = .ok v → ∃ s2, s' = restoreSt st s2 ∧ G s2 ∧ s2.data.length = s.data.length ∧
+      s2.linear = s.linear ∧ s2.addr = s.addr ∧ s2.suspended = s.suspended ∧ TExt s s2)
+  eval : ∀ (e : Expr) (s : St), G s → WF s → okL e = true → Safe (evalCallExpr n e) s
+  prep : ∀ (f : Option FnObj) (i : Nat) (args : List Expr) (s : St), G s → WF s → okLs args = true → Safe (prepareArgs n f i args) s
+  user : ∀ (name : String) (k : Nat) (s : St) (tail : List Cell), G s → WF s →
+    s.data.map cellOf = List.replicate k .val ++ tail → Safe (callUser n name k) s
+  builtin : ∀ (name : String) (args : List Val) (s : St), G s → WF s → s.pc = -1 → (∀ a ∈ args, vok s.fns.length a = true) →
+    Safe (builtin n name args) s
+  apply : ∀ (f : Val) (args : List Val) (s : St), G s → WF s → s.pc = -1 → vok s.fns.length f = true →
+    (∀ a ∈ args, vok s.fns.length a = true) → Safe (applyFn n f args) s
+  mapArr : ∀ (f : Val) (r i k : Nat) (s : St), G s → WF s → s.pc = -1 → vok s.fns.length f = true → Safe (mapArr n f r i k) s
+  mapList : ∀ (f l : Val) (s : St), G s → WF s → s.pc = -1 → vok s.fns.length f = true → vok s.fns.length l = true →
+    Safe (mapList n f l) s
+  force : ∀ (id : Nat) (s : St), G s → WF s → Safe (forceLazy n id) s
+
+/-! ## `runLoop`, `run`, `nested` -/
+
+theorem loop_safe (n : Nat) (ih : AllSpec n) (ihs : SSpec n) (b : Base) (st : CtlState) (s : St) (hg : G s) (hw : WF s)
+    (hl : Live b s) (hbl : b.linear ≠ []) (hb : b.pc = -2) (hm : b.main = false) : Safe (runLoop (n + 1) st) s := by
+  intro r s' hex
+  rcases hl with ⟨top, rest, hr⟩ | hf
+  · obtain ⟨hns, i, hi⟩ := hr.fetch (hr.A_pos hm)
+    rw [runLoop] at hex
+    simp only [run_bind, run_get, run_ite, hns, if_false, hi] at hex
+    rcases hx : (exec n i).run s with ⟨r1, s1⟩
+    simp only [hx, run_set] at hex
+    obtain ⟨hnp, hg1⟩ := ihs.exec b s top rest i hg hw hr hbl hi r1 s1 hx
+    cases r1 with
+    | error e =>
+      cases e with
+      | err =>
+        simp only [run_bind, run_restore, run_modify, run_throw] at hex
+        cases hex
+        exact res_err
+      | panic => exact absurd rfl hnp
+      | timeout =>
+        simp only [run_throw] at hex; cases hex
+        exact res_timeout
+    | ok u =>
+      obtain ⟨hw1, he1, hl1, hs1⟩ := ih.exec b s s1 top rest i hw hr hi hx
+      exact ihs.loop b st s1 (hg1 u rfl) hw1 hl1.live hbl hb hm r s' hex
+  · have hpc : s.pc = -1 := by rw [hf.pc, hb]; rfl
+    rw [runLoop_finished n st s hpc] at hex
+    cases hex
+    exact res_ok _ hg
+
+theorem run_safe (n : Nat) (ih : AllSpec n) (ihs : SSpec n) (b : Base) (s : St) (top : Act) (hg : G s) (hw : WF s)
+    (hr : Running b s top []) (hbl : b.linear ≠ []) (hb : b.pc = -2) (hm : b.main = false) : Safe (run (n + 1)) s := by
+  rw [run_succ_eq]
+  refine Safe.bind (fun r s' h => by rw [run_capture] at h; cases h; exact res_ok _ hg) (fun st s1 h1 _ => ?_)
+  rw [run_capture] at h1
+  cases h1
+  exact Safe.bind (ihs.loop b _ s hg hw (Or.inl ⟨top, [], hr⟩) hbl hb hm) (fun _ s2 _ hg2 => runTail_safe s2 hg2)
+
+theorem nested_safe (n : Nat) (ih : AllSpec n) (ihs : SSpec n) (f : Nat) (st : CtlState) (s : St) (hg : G s) (hw : WF s) (h2 : 2 ≤ f)
+    (hlt : f < s.fns.length) (hp0 : (fnOf s f).params.length = 0) (hpc : s.pc = -2) :
+    ∀ r s', (nested (n + 1) f st).run s = (r, s') →
+    r ≠ .error .panic ∧ (∀ v, r = .ok v → ∃ s2, s' = restoreSt st s2 ∧ G s2 ∧ s2.data.length = s.data.length ∧
+      s2.linear = s.linear ∧ s2.addr = s.addr ∧ s2.suspended = s.suspended ∧ TExt s s2) := by
+  intro r s' hex
+  simp only [VM.nested] at hex
+  rw [run_bind, run_get] at hex
+  dsimp only at hex
+  rw [run_bind, run_set] at hex
+  rcases hm : (do callFunction f 0; run n : M Val).run s with ⟨r0, s2⟩
+  rw [hm] at hex
+  -- the inner computation
+  have hinner : r0 ≠ .error .panic ∧ (∀ w, r0 = .ok w → G s2 ∧ s2.data.length = s.data.length ∧
+      s2.linear = s.linear ∧ s2.addr = s.addr ∧ s2.suspended = s.suspended ∧ TExt s s2) := by
+    rw [run_bind] at hm
+    rcases hc : (callFunction f 0).run s with ⟨r1, s1⟩
+    rw [hc] at hm
+    obtain ⟨hn1, hg1⟩ := callFunction_safe' f 0 s hg r1 s1 hc
+    cases r1 with
+    | error e =>
+      cases hm
+      cases e with
+      | err => exact ⟨(by intro h; cases h), fun w hw' => (by cases hw')⟩
+      | panic => exact absurd rfl hn1
+      | timeout => exact ⟨(by intro h; cases h), fun w hw' => (by cases hw')⟩
+    | ok u =>
+      simp only at hm
+      have hgd := hw.fns f h2 hlt
+      obtain ⟨c1, c2, c3, c4, c5, c6, c7, hw1, c9⟩ := callFunction_ok f 0 s s1 (s.data.map cellOf) hw hgd rfl hc
+      rw [hp0] at c9
+      simp only [List.replicate_zero, List.nil_append] at c9
+      have hid1 : f < s1.fns.length := by rw [c6]; exact hlt
+      obtain ⟨ann, hV, hact⟩ := actOK_of_good (hw1.fns f h2 hid1) hid1
+      have hfo : fnOf s1 f = fnOf s f := by simp only [VM.fnOf, c6]
+      let b : Base := ⟨s.data, s.linear, s.addr, s.curfunc, -2, false⟩
+      have hrun : Running b s1 ⟨f, ann, s.data.map cellOf, s.linear.length, s.addr.length + 1⟩ [] := by
+        refine ⟨c1, by rw [c2]; exact Int.le_refl 0, ?_, hact _ _ _, ⟨rfl, rfl, by rw [c3, hpc]; exact (if_neg Bool.false_ne_true).mpr rfl⟩, by rw [c4]; exact List.suffix_refl _⟩
+        apply inv_entry _ _ hV
+        · show s1.pc.toNat = 0; rw [c2]; rfl
+        · show s1.data.map cellOf = List.replicate (fnOf s1 f).params.length Cell.val ++ _
+          rw [c9, hfo, hp0]; rfl
+        · show s1.linear.length = _; rw [c4]
+        · show s1.addr.length = _; rw [c3]; simp
+      obtain ⟨hn2, hg2⟩ := ihs.run b s1 _ (hg1 u rfl) hw1 hrun hg.lin rfl rfl r0 s2 hm
+      refine ⟨hn2, fun w hw' => ?_⟩
+      subst hw'
+      obtain ⟨hw2, he2, hv2, d2, l2, a2, cu2, p2, su2⟩ := ih.run b s1 s2 _ w hw1 hrun rfl rfl hm
+      exact ⟨hg2 w rfl, by have := congrArg List.length d2; simpa using this, l2, a2, su2.trans c5, (TExt.same c6 c7).trans he2⟩
+  obtain ⟨hn, hok⟩ := hinner
+  cases r0 with
+  | ok w =>
+    simp only [run_bind, run_restore, run_pure] at hex
+    cases hex
+    refine ⟨(by intro h; cases h), fun v hv => ?_⟩
+    cases hv
+    obtain ⟨q1, q2, q3, q4, q5, q6⟩ := hok w rfl
+    exact ⟨s2, rfl, q1, q2, q3, q4, q5, q6⟩
+  | error e =>
+    cases e with
+    | err =>
+      simp only [run_bind, run_restore, run_throw] at hex
+      cases hex
+      exact ⟨(by intro h; cases h), fun v hv => (by cases hv)⟩
+    | panic => exact absurd rfl hn
+    | timeout =>
+      simp only [run_throw] at hex; cases hex
+      exact ⟨(by intro h; cases h), fun v hv => (by cases hv)⟩
+
 end ZygoVerif.RunInv
